@@ -32,6 +32,27 @@ CHECKS = [
         "and survive a render/re-read round trip. Exhaustive within the bound, which is where lazily committed attributes can go wrong.",
         "note": "trusted: ref/doc.py (comment attachment convention and source order), the renderer; bounded by history length and the attribute type alphabet",
     },
+    {
+        "property_id": "C06",
+        "level": "exploration",
+        "design_ref": "DESIGN.md 4/C06",
+        "technique": "bounded-exhaustive enumeration of (type, value) pairs against a naive reference codec (bit lists, own IEEE-754 encoder)",
+        "text": "Every (type, value) pair of the bounded grammar/value alphabet is serialized by the real codec and compared byte for byte with "
+        "ref.codec, the length is checked for membership in the type's bit_length_set (inner/outer set for delimited types), the "
+        "round trip is compared with the cast-mode/default canonical value, relaxed spellings must give the same bytes. Exhaustive "
+        "within the bound, where offset x width x nesting dependent codec bugs live.",
+        "note": "trusted: ref/codec.py, ref/layout.py, gen/values.py (value alphabet; product caps are stated in the evidence)",
+    },
+    {
+        "property_id": "C07",
+        "level": "exploration",
+        "design_ref": "DESIGN.md 4/C07",
+        "technique": "bounded-exhaustive enumeration of (type, byte string) pairs (alphabet strings, all prefixes / single-bit flips / junk suffixes of valid representations) against a reference decoder, plus metamorphic clauses on the real code",
+        "text": "Every byte string of the bounded families is decoded by the real deserializer for every type of the bounded grammar, with and "
+        "without the top-level delimiter header; result or rejection must equal the reference decoder's (zero extension, truncation, "
+        "bounded sub-objects, the four rejection classes); fixed point, zero-extension and container-independence are checked on the real code alone.",
+        "note": "trusted: ref/codec.py decode; byte strings are bounded families, not all strings",
+    },
 ]
 
 _TODO = "check not built yet in this round (see DESIGN.md 9, implementation order)"
